@@ -20,6 +20,7 @@ import itertools
 import json
 import multiprocessing
 import os
+import re
 import sys
 import time
 
@@ -30,7 +31,8 @@ C.reexec_under_impl_python()
 
 CID = "C10"
 AREA = "rset"
-VO = ["props/C10.vo", "rset/RSetModel.vo", "rset/RSetSpec.vo", "rset/RSetHist.vo", "rset/RSetThm.vo", "rset/RSetHistThm.vo", "rset/RSetLit.vo", "rset/RSetLitThm.vo", "rset/RSetHeapq.vo", "rset/RSetHeapqThm.vo", "rset/RSetHist2.vo", "rset/RSetHistThm2.vo"]
+VO = ["props/C10.vo", "rset/RSetModel.vo", "rset/RSetSpec.vo", "rset/RSetHist.vo", "rset/RSetThm.vo", "rset/RSetHistThm.vo", "rset/RSetLit.vo", "rset/RSetLitThm.vo", "rset/RSetHeapq.vo", "rset/RSetHeapqThm.vo", "rset/RSetHist2.vo", "rset/RSetHistThm2.vo",
+      "rset/RSetGenBase.vo", "gen/RSetGen.vo", "rset/RSetGenThm.vo"]
 E_MODEL_FIRST, E_MODEL_LAST, E_SPEC, E_TAGGED, E_LITERAL, E_MODEL_PY, E_HIST_FIRST, E_HIST_LAST, E_HIST_SPEC, E_HIST_PY, E_MILD = 0, 1, 2, 3, 4, 5, 10, 11, 12, 13, 14
 
 BASE = dt.datetime(2000, 1, 1)
@@ -1091,6 +1093,20 @@ def replay(path):
     return 0
 
 
+def translator_status(build_log):
+    """harness/gen_rset.py (run by common.regenerate on every check) regenerates coq/gen/RSetGen.v from
+    /repo's rrule.py; when it aborts the file is poisoned and rset/RSetGenThm.v, hence the C10_gen_*
+    block and the whole props/C10.v, stop compiling"""
+    log = build_log or ""
+    failed = "GENERATOR FAILED: gen_rset.py" in log
+    msg = None
+    if failed:
+        ms = re.findall(r"TRANSLATE-ERROR: ([^\n]*)", log[:log.index("GENERATOR FAILED: gen_rset.py")])
+        msg = ms[-1] if ms else "generator exited non-zero"
+    return {"script": "harness/gen_rset.py", "outputs": ["coq/gen/RSetGen.v"],
+            "status": "aborted" if failed else "ok", "message": msg}
+
+
 def main():
     argv = sys.argv[1:]
     if "--replay" in argv:
@@ -1099,10 +1115,13 @@ def main():
     t0 = time.time()
     verdict = C.Verdict(CID, MATCHERS)
     build_err = None
+    build_log = ""
     try:
-        C.ensure_built([AREA], VO)
+        _ok, build_log = C.ensure_built([AREA], VO)
     except C.BuildError as ex:
         build_err = ex
+        build_log = ex.log or ""
+    translator = translator_status(build_log)
     if build_err is not None:
         props = {"obligations": 1, "discharged": 0, "theorems": [], "assumptions": {},
                  "cmd": "coqc props/C10.v", "log": build_err.log, "ok": False}
@@ -1178,8 +1197,23 @@ def main():
     for payload, concrete in viols:
         verdict.violation(payload, concrete=concrete)
 
-    if not props["ok"] and not verdict.violations:
-        verdict.violation({"kind": "broken proof obligation", "theorem_file": "coq/props/C10.v",
+    if translator["status"] != "aborted":
+        # compile_props regenerates once more under its own lock hold: look there too
+        t2 = translator_status(props.get("log") or "")
+        if t2["status"] == "aborted":
+            translator = t2
+    if not props["ok"] and not any(c for (_p, c) in verdict.violations):
+        # a translator abort or a broken C10_gen_* / C10_* obligation is a violation by itself; the
+        # concrete search above has run as usual (the oracle does not depend on coq/gen) and found
+        # no failing input
+        gen_broken = translator["status"] == "aborted" or "RSetGen" in (props.get("log") or "")
+        verdict.violation({"kind": ("translator abort (harness/gen_rset.py: %s): the regenerated model of rruleset "
+                                    "no longer exists, C10_gen_* obligations broken" % translator["message"])
+                           if translator["status"] == "aborted" else
+                           ("broken gen obligation: the model regenerated from the source (coq/gen/RSetGen.v) is no "
+                            "longer the hand-written model (rset/RSetGenThm.v / C10_gen_*)" if gen_broken
+                            else "broken proof obligation"),
+                           "translator": translator, "theorem_file": "coq/props/C10.v",
                            "theorems": props["theorems"], "discharged": props["discharged"],
                            "input": None, "log_tail": props["log"][-3000:]}, concrete=False)
     if not have_oracle and not verdict.violations:
@@ -1231,6 +1265,11 @@ def main():
         "differential_only": ["naive/aware TypeError class (tag_error of RSetModel.v is compared with the code, "
                               "no theorem)", "lock handling of _iter_cached (not modelled; single-threaded histories)"],
         "known_findings_hit": verdict.known_hits,
+        "translator": translator,
+        "model_tie": "rruleset (_genitem.__init__/__next__/comparisons, __init__, the four mutators through "
+                     "_invalidates_cache, _iter) and rrulebase.__init__/_invalidate_cache are regenerated from /repo's AST by "
+                     "harness/gen_rset.py on this run (coq/gen/RSetGen.v) and proved equal to the hand-written model for all "
+                     "inputs (rset/RSetGenThm.v, C10_gen_*); accepted subset and call table: notes/rset.md",
         "guarded_theorems": {"C10_rset_history_mild": "mild_history: stale iterators may be advanced as long as they do not "
                                                       "change _cache_complete/_cache_gen/_len (sharper than fresh_history)",
                              "C10_rset_history": "fresh_history ops = true (no next() on an iterator obtained "
@@ -1250,6 +1289,12 @@ def main():
                       "a member (rrule / date list) is the finite non-decreasing list of instants it produces",
                       "identity tests (`is`) in _genitem.__next__/_iter resolved statically as explained in RSetModel.v"],
                      len(verdict.violations))
+    if translator["status"] == "aborted":
+        print("C10 translator harness/gen_rset.py ABORTED (%s): coq/gen/RSetGen.v poisoned, C10_gen_* obligations broken"
+              % translator["message"])
+    elif not props["ok"] and "RSetGen" in (props.get("log") or ""):
+        print("C10 gen obligations BROKEN: the model regenerated from the source (coq/gen/RSetGen.v) is no longer the "
+              "hand-written model (rset/RSetGenThm.v)")
     print("C10 %s: obligations %d/%d, %d cases %s, model-diff %d, spec-diff %d, tiebreak-diff %d, known %s, %.1fs" % (
         tier, props["discharged"], props["obligations"], total["evaluations"], per_stream, total["model_diff"],
         total["spec_diff"], total["tiebreak_diff"], verdict.known_hits, time.time() - t0))
